@@ -799,10 +799,17 @@ def run_case(contract, case, tier="quick", known=None, do_crosscheck=True, seed=
             crosscheck(contract, case, paths, res, n=(25 if tier == "quick" else 300), seed=seed)
         except Exception:
             res.crosscheck["error"] = traceback.format_exc()
+    # the proof is undecided because the code left the subset the contract's stubs / loop specifications cover (typically after a change): a failed
+    # proof is not a violation, but a *real run of the real code* on an input satisfying the precondition that breaks a postcondition is one
+    if res.unsupported and res.error is None and case.replay == "model" and do_crosscheck:
+        try:
+            refute_by_sampling(contract, case, res, n=(12 if tier == "quick" else 60), seed=seed)
+        except Exception:
+            res.crosscheck["error"] = traceback.format_exc()
     # replay refuted obligations natively
     for entry in res.obligations:
         zm = entry.pop("_zmodel", None)
-        if entry.get("verdict") == "refuted" and "model" in entry:
+        if entry.get("verdict") == "refuted" and "model" in entry and "replay" not in entry:
             try:
                 if case.replay == "model" and zm is not None:
                     entry["replay"] = replay_model(contract, case, zm, entry["name"].split("#")[-1])
@@ -1097,6 +1104,63 @@ def crosscheck_model(contract, case, res, n=10, seed=0):
             if t is False:
                 res.crosscheck["mismatches"].append(dict(inputs=_plain(cx.assignment), post=nm, native=repr(outcome)[:200],
                                                          note="postcondition proved symbolically is false on the real code"))
+
+
+def refute_by_sampling(contract, case, res, n=12, seed=0):
+    """For a case whose proof is undecided: sample models of the precondition, build real objects, run the real function natively and evaluate the
+    postconditions; a false postcondition becomes a refuted obligation carrying the real failing input (its replay is the run itself)."""
+    rng = random.Random(seed * 7907 + hash(case.name) % 100000)
+    models = contract.models() if contract.models else default_models()
+    seen = set()
+    for _ in range(n):
+        try:
+            zm = _sample_assignment(case, contract, rng, models, want_model=True)
+        except (Unsupported, PathEnd):
+            return
+        if zm is None:
+            continue
+        cx = CaseCtx(None, mode="replay", zmodel=zm)
+        try:
+            case.build(cx)
+        except ReplayImpossible:
+            continue
+        if any(zeval(c, zm, 1e-9) is False for c in cx.requires):
+            continue
+        f, args, kwargs = cx.target_call
+        try:
+            import warnings
+            with warnings.catch_warnings(record=True):
+                warnings.simplefilter("always")
+                v = f(*args, **kwargs)
+            outcome = Outcome("return", value=v)
+        except Exception as e:
+            outcome = Outcome("raise", exc=e)
+        if outcome.kind == "raise" and isinstance(outcome.exc, OverflowError):
+            continue
+        failed = []
+        if outcome.kind == "raise":
+            ok = any(isinstance(outcome.exc, cls) and zeval(when if not isinstance(when, bool) else z3.BoolVal(when), zm) is not False
+                     for cls, when in cx.allowed_raises)
+            if not ok:
+                failed.append(("no_raise[%s]" % type(outcome.exc).__name__, _describe_exc(outcome.exc)))
+        if cx.post_fn is not None and not failed:
+            try:
+                posts = cx.post_fn(outcome) or []
+            except Exception:
+                posts = []
+            for nm, g in posts:
+                t = g if isinstance(g, bool) else zeval(g, zm, 1e-7)
+                if t is False:
+                    failed.append((nm, ""))
+        for nm, where in failed:
+            if nm in seen:
+                continue
+            seen.add(nm)
+            res.obligations.append(dict(name="%s#%s#%s" % (case.target, case.name, nm), path=-1, where=where, kind="post", verdict="refuted",
+                                        backend="sampling of the precondition on the real code (symbolic proof undecided)", seconds=0.0,
+                                        model=_plain(cx.assignment), goal="postcondition %s evaluated on the native result" % nm,
+                                        replay=dict(mode="model", reproduced=True, inputs=_plain(cx.assignment), native_outcome=repr(outcome)[:300],
+                                                    note="found by running the real code on a sampled model of the precondition")))
 
 
 def _plain(d):
